@@ -134,6 +134,28 @@ chk(
     "provenance (origin) analysis of the evaluator's recursive call sites + who-may-call + effect analysis",
 )
 
+chk(
+    "C10",
+    "Partial: decided are the operator gate (Variable::compare walked exhaustively under the 24 combinations of operand "
+    "number-ness x comparator: ordering yields None unless both are numbers, each comparator applies its own operator to "
+    "(left, right)), the None->null / Some(b)->Bool(b) mapping in the evaluator, '==' as type-gated same-kind payload "
+    "equality with '!=' its negation (only `eq` is defined), and confinement of the internal total order (every call whose "
+    "instantiated obligations put Ord/PartialOrd on a Variable type is in an allowed body). Not decided: the arithmetic of "
+    "float_eq (reflexivity / trichotomy for numbers).",
+    "Trusted: std equality of Vec/BTreeMap/String/bool; float_eq's tolerance arithmetic.",
+    "exhaustive decision-tree walks + provenance + who-may-call via instantiated trait obligations",
+)
+chk(
+    "C15",
+    "Partial: the history clause is reduced to HashMap's contract by showing structurally that the registry is nothing but a "
+    "map keyed by the given name (insert / remove / get with the unmodified key, empty when fresh, touched by nothing else, "
+    "builtins = 26 plain registrations); runtime flow compile -> Expression -> Context -> lookup, the call protocol of the "
+    "Function arm (arguments evaluated once each, in order, before the lookup; same vector and context passed on; "
+    "UnknownFunction on a miss; Expref unevaluated) and custom-function validation are dominance / provenance facts.",
+    "Trusted: HashMap insert/remove/get semantics.",
+    "provenance analysis + who-may-touch-field + dominance over rustc_private facts",
+)
+
 for pid in [f"C{n:02d}" for n in range(1, 19)]:
     if pid not in CHECKS and pid not in NOT_APPLICABLE:
         na(pid, "check not implemented yet in this revision of /verif (work in progress; see DESIGN.md §3)")
